@@ -31,8 +31,8 @@ CGA == <<1, 1, 2>>
 QB == <<"0.25", "-0.25", "0.0">>
 MB == <<"36.0", "32.0", "30.0">>
 CGB == <<1, 2, 3>>
-AtomsA(n) == [a \in 1..n |-> At(CN[a], "TA", QA[a], MA[a], CGA[a], 1, "A")]
-AtomsB(n) == [a \in 1..n |-> At(CN[a], "TB", QB[a], MB[a], CGB[a], 1, "B")]
+AtomsA(n) == TLCEval([a \in 1..n |-> At(CN[a], "TA", QA[a], MA[a], CGA[a], 1, "A")])
+AtomsB(n) == TLCEval([a \in 1..n |-> At(CN[a], "TB", QB[a], MB[a], CGB[a], 1, "B")])
 \* candidate intra-block interactions of a block with n atoms (p = "3" for A, "4" for B: parameters identify the block)
 Cand(n, p) ==
   IF n = 1 THEN <<>>
@@ -42,7 +42,7 @@ Cand(n, p) ==
          In("angles", <<1, 2, 3>>, <<"2", "1" \o p \o "0", "50">>), In("constraints", <<2, 3>>, <<"1", "0." \o p \o "2">>),
          In("exclusions", <<1, 3>>, <<>>), In("virtual_sites2", <<3, 1, 2>>, <<"1", "0." \o p>>)>>
 Pick(s, S) == SelectSeq([x \in DOMAIN s |-> [i |-> x, v |-> s[x]]], LAMBDA e : e.i \in S)
-PickV(s, S) == [x \in DOMAIN Pick(s, S) |-> Pick(s, S)[x].v]
+PickV(s, S) == LET p == Pick(s, S) IN TLCEval([x \in DOMAIN p |-> p[x].v])
 EdgesOf(ints) == SetToSeq({<<x.at[1], x.at[2]>> : x \in {y \in ToSet(ints) : y.sec \in EdgeSections}})
 MkBlock(name, nrexcl, ats, ints) == [name |-> name, nrexcl |-> nrexcl, atoms |-> ats, inters |-> ints, edges |-> EdgesOf(ints)]
 \* the "full" interaction set of a block of n atoms
@@ -53,8 +53,8 @@ BlockB(n, v, e) == MkBlock("B", e, AtomsB(n), PickV(Cand(n, "4"), FullSet(n, v))
 QX == <<"0.1", "0.2", "0.3", "0.4">>
 BlockXX(n1, n2, e) ==
   LET n == n1 + n2
-      ats == [a \in 1..n |-> IF a <= n1 THEN At(CN[a], "TX", QX[a], "20.0", 1, 1, "X1") ELSE At(CN[a - n1], "TY", QX[a], "22.0", 2, 2, "X2")]
-      bonds == [a \in 1..(n - 1) |-> In("bonds", <<a, a + 1>>, <<"1", <<"0.51", "0.52", "0.53">>[a], "900">>)]
+      ats == TLCEval([a \in 1..n |-> IF a <= n1 THEN At(CN[a], "TX", QX[a], "20.0", 1, 1, "X1") ELSE At(CN[a - n1], "TY", QX[a], "22.0", 2, 2, "X2")])
+      bonds == TLCEval([a \in 1..(n - 1) |-> In("bonds", <<a, a + 1>>, <<"1", <<"0.51", "0.52", "0.53">>[a], "900">>)])
       ints == IF n1 = 2 THEN bonds \o <<In("angles", <<1, 2, 3>>, <<"2", "150", "25">>)>> ELSE bonds
   IN MkBlock("XX", e, ats, ints)
 
@@ -77,13 +77,13 @@ RunStart(kv, i) == CHOOSE s \in 1..i : (\A j \in s..i : kv[j] = "X") /\ (s = 1 \
 RunEnd(kv, i) == CHOOSE t \in i..Len(kv) : (\A j \in i..t : kv[j] = "X") /\ (t = Len(kv) \/ kv[t + 1] # "X")
 KindOK(kv) == \A i \in DOMAIN kv : kv[i] = "X" => (RunEnd(kv, i) - RunStart(kv, i) + 1) % 2 = 0
 Kinds(n, ks) == {kv \in [1..n -> ks] : KindOK(kv)}
-RnOf(kv) == [i \in DOMAIN kv |-> IF kv[i] = "X" THEN (IF (i - RunStart(kv, i)) % 2 = 0 THEN "X1" ELSE "X2") ELSE kv[i]]
-FiOf(kv) == [i \in DOMAIN kv |-> IF kv[i] = "X" THEN "XX" ELSE ""]
-MkInp(ff, n, start, kv, E, sel) == [ff |-> ff, n |-> n, start |-> start, rn |-> RnOf(kv), fi |-> FiOf(kv), edges |-> SetToSeq(E), sel |-> sel]
+RnOf(kv) == TLCEval([i \in DOMAIN kv |-> IF kv[i] = "X" THEN (IF (i - RunStart(kv, i)) % 2 = 0 THEN "X1" ELSE "X2") ELSE kv[i]])
+FiOf(kv) == TLCEval([i \in DOMAIN kv |-> IF kv[i] = "X" THEN "XX" ELSE ""])
+MkInpF(FFs, ff, n, start, kv, E, sel) == [ff |-> ff, F |-> FFs[ff], n |-> n, start |-> start, rn |-> RnOf(kv), fi |-> FiOf(kv), edges |-> SetToSeq(E), sel |-> sel]
 \* (kinds, edges) shapes inside the domain; the domain conditions do not depend on block sizes, so force field 1 decides them
-Shapes(n, ks) == {s \in Kinds(n, ks) \X ConnGraphs(n) : DomOK(MkInp(1, n, 1, s[1], s[2], <<>>))}
-GraphInputs(ffs, ns, starts, ks) ==
-  UNION {{MkInp(ff, n, st, s[1], s[2], <<>>) : ff \in ffs, st \in starts, s \in Shapes(n, ks)} : n \in ns}
+Shapes(FFs, n, ks) == {s \in Kinds(n, ks) \X ConnGraphs(n) : DomOK(MkInpF(FFs, 1, n, 1, s[1], s[2], <<>>))}
+GraphInputs(FFs, ffs, ns, starts, ks) ==
+  UNION {{MkInpF(FFs, ff, n, st, s[1], s[2], <<>>) : ff \in ffs, st \in starts, s \in Shapes(FFs, n, ks)} : n \in ns}
 \* the domain is re-checked on every initial state
 Dom_Inv == (pc = "match") => DomOK(inp)
 
@@ -95,5 +95,5 @@ FFsG == << MkFF(<<BlockA(1, 1, 1), BlockB(2, 1, 1), BlockXX(1, 1, 1)>>, LinkSet(
            MkFF(<<BlockA(3, 2, 2), BlockB(3, 2, 2), BlockXX(2, 2, 2)>>, LinkSet(0), <<>>),
            MkFF(<<BlockA(2, 1, 1), BlockB(2, 2, 1), BlockXX(2, 2, 1)>>, LinkSet(3), <<>>),
            MkFF(<<BlockA(1, 1, 3), BlockB(3, 2, 3), BlockXX(1, 1, 3)>>, LinkSet(2), <<>>) >>
-InputsG(ffs, ns) == GraphInputs(ffs, ns, {1, 5}, {"A", "B", "X"})
+InputsG(ffs, ns) == GraphInputs(FFsG, ffs, ns, {1, 5}, {"A", "B", "X"})
 =============================================================================
